@@ -26,6 +26,16 @@ CHECKS = {
               "ETDRKp driven with a recording user-defined nonlinear function; one step of every public semi-linear stepper class x order 0-4 is "
               "recorded at the nonlinear-function boundary and validated by TLC against the stage machine, with the linear symbol from Symbols.tla."),
         note="TLC, mpmath (60+ digits), the BaseNonlinearFun call boundary, documented linear parts transcribed in Symbols.tla; tolerance 1e-10 relative (cover), 2e5 ulps (traces)"),
+    "C03": dict(
+        category="model_checking", design_ref="4/C03", engine="nonlin",
+        technique="TLC machine DealiasIn/Apply/DealiasOut on exact sparse spectra (Nonlin, MC_Nonlin) with alias-freeness and band invariants + replay of every terminal state into the real nonlinear functions",
+        text=("Nonlin.tla states the documented continuous operators (all four convection forms, gradient norm, polynomial, general nonlinear, 2D vorticity "
+              "convection, 3D projected rotational convection, Leray, Cahn-Hilliard, Gray-Scott) as exact operations on sparse two-sided spectra with "
+              "Gaussian-rational coefficients (true convolutions in Z^D). MC_Nonlin runs DealiasIn -> Apply -> DealiasOut from every sum of <= degree real "
+              "basis functions (every channel assignment, cos/sin, modes inside the band, one shell outside, Nyquist) for every (term, D, N, fraction) and "
+              "TLC checks alias-freeness of the design, band confinement, reality and support. Every terminal state is replayed into the real "
+              "nonlinear-function objects and compared on every stored index; by multilinearity this fixes the operator for every state on the grid."),
+        note="TLC, dump parser, numpy synthesis of the input fields, fft conventions (C04); reaction terms measured via (S1-S0)/(dt phi1) of the public steppers; tolerance 1e-9 N^D"),
     "C04": dict(
         category="model_checking", design_ref="4/C04", engine="layout",
         technique="TLC-exhaustive layout/FFT tables (MC_Layout, MC_Fft) replayed entry-by-entry into exponax",
@@ -103,6 +113,8 @@ def main():
              "kind_free_text": "TLC symbolic stage machine + coefficient cover + trace validation"},
             {"name": "validate", "path": "spec/MC_Validate.tla spec/Trace_Validate.tla harness/checks/c20.py", "serves_properties": ["C20"],
              "kind_free_text": "TLC decision tables + replay + hook-trace validation"},
+            {"name": "nonlin", "path": "spec/Nonlin.tla spec/MC_Nonlin.tla harness/nonlin.py harness/checks/c03.py", "serves_properties": ["C03"],
+             "kind_free_text": "TLC exact sparse-spectrum machine + spec->code replay"},
             {"name": "rollout", "path": "spec/MC_Rollout.tla spec/Trace_Rollout.tla harness/checks/c14.py", "serves_properties": ["C14"],
              "kind_free_text": "TLC state machine + replay + trace validation"},
         ],
